@@ -20,6 +20,7 @@ DnOne == <<E("2.5.4.3", "utf8", "$cn")>>
 DnMulti == <<E("2.5.4.6", "printable", "$c"), E("2.5.4.10", "bmp", "$o"), E("2.5.4.3", "ia5", "$cn"), E("1.2.3.4.5", "universal", "$x")>>
 G(v, val, b, oid) == GName(v, val, b, oid, <<>>)
 SanSome == <<G("dns", "$d1", <<>>, ""), G("ip", "", <<192, 0, 2, 1>>, ""), G("rfc822", "$m", <<>>, ""),
+             G("ip", "", <<0, 0, 0, 0, 0, 0, 0, 0, 0, 0, 255, 255, 192, 0, 2, 9>>, ""), G("ip", "", <<32, 1, 13, 184, 0, 0, 0, 0, 0, 0, 0, 0, 0, 0, 0, 1>>, ""),
              G("uri", "$u", <<>>, ""), G("other", "$upn", <<>>, "1.3.6.1.4.1.311.20.2.3")>>
 CuA == [oid |-> "1.3.6.1.4.1.55555.1", crit |-> FALSE, content |-> "0c0568656c6c6f"]
 CuB == [oid |-> "1.3.6.1.5.5.7.1.31", crit |-> TRUE, content |-> "04200102030405060708090a0b0c0d0e0f101112131415161718191a1b1c1d1e1f20"]
